@@ -126,7 +126,7 @@ class CellResolutionAttribute:
 
       m = CellResolutionAttribute._CELL_RESOLUTION_RE.fullmatch(cr)
 
-      if m is not None:
+      if m is not None and int(m.group(1)) > 0 and int(m.group(2)) > 0:
 
         return model.CellResolutionType(columns=int(m.group(1)), rows=int(m.group(2)))
 
@@ -155,18 +155,27 @@ class ExtentAttribute:
 
       s = extent.split(" ")
 
-      (w, w_units) = utils.parse_length(s[0])
+      try:
 
-      (h, h_units) = utils.parse_length(s[1])
+        if len(s) != 2:
+          raise ValueError("tts:extent on <tt> must have two components")
 
-      if w_units != "px" or h_units != "px":
-        LOGGER.error("ttp:extent on <tt> does not use px units")
-        return None
+        (w, w_units) = utils.parse_length(s[0])
 
-      if not w.is_integer() or not h.is_integer():
-        LOGGER.error("Pixel resolution dimensions must be integer values")
+        (h, h_units) = utils.parse_length(s[1])
 
-      return model.PixelResolutionType(int(w), int(h))
+        if w_units != "px" or h_units != "px":
+          LOGGER.error("ttp:extent on <tt> does not use px units")
+          return None
+
+        if not w.is_integer() or not h.is_integer():
+          raise ValueError("Pixel resolution dimensions must be integer values")
+
+        return model.PixelResolutionType(int(w), int(h))
+
+      except ValueError as e:
+
+        LOGGER.error("tts:extent on <tt> invalid: %s", str(e))
 
     return None
 
@@ -193,24 +202,30 @@ class ActiveAreaAttribute:
         LOGGER.error("Syntax error in ittp:activeArea on <tt>")
         return None
 
-      (left_offset, left_offset_units) = utils.parse_length(s[0])
+      try:
 
-      (top_offset, top_offset_units) = utils.parse_length(s[1])
+        (left_offset, left_offset_units) = utils.parse_length(s[0])
 
-      (w, w_units) = utils.parse_length(s[2])
+        (top_offset, top_offset_units) = utils.parse_length(s[1])
 
-      (h, h_units) = utils.parse_length(s[3])
+        (w, w_units) = utils.parse_length(s[2])
 
-      if w_units != "%" or h_units != "%" or left_offset_units != "%" or top_offset_units != "%":
-        LOGGER.error("ittp:activeArea on <tt> must use % units")
-        return None
+        (h, h_units) = utils.parse_length(s[3])
 
-      return model.ActiveAreaType(
-        left_offset / 100,
-        top_offset / 100,
-        w / 100,
-        h / 100
-        )
+        if w_units != "%" or h_units != "%" or left_offset_units != "%" or top_offset_units != "%":
+          LOGGER.error("ittp:activeArea on <tt> must use % units")
+          return None
+
+        return model.ActiveAreaType(
+          left_offset / 100,
+          top_offset / 100,
+          w / 100,
+          h / 100
+          )
+
+      except ValueError as e:
+
+        LOGGER.error("ittp:activeArea on <tt> invalid: %s", str(e))
 
     return None
 
